@@ -63,8 +63,16 @@ def _is_context_sensitive(default: "CallableColumnDefault"):
     except AttributeError:
         return True
 
-    parameters = inspect.signature(wrapped_callable).parameters
-    return len(parameters) > 0
+    try:
+        parameters = inspect.signature(wrapped_callable).parameters
+    except ValueError:
+        # some builtins (``dict``, ``set``) have no signature,
+        # SQLAlchemy has wrapped the callable, so it is called without arguments
+        return False
+    return any(
+        param.default is param.empty and param.kind in (param.POSITIONAL_ONLY, param.POSITIONAL_OR_KEYWORD)
+        for param in parameters.values()
+    )
 
 
 def _unwrap_mapped_annotation(type_hint: TypeHint) -> TypeHint:
